@@ -41,7 +41,7 @@ func genC15(t *rapid.T) c15Scenario {
 	f := sim.FanSpec{Kind: rapid.SampledFrom([]string{"hwmon", "hwmon", "file"}).Draw(t, "kind"), OrigMode: 2, OrigPwm: rapid.IntRange(0, 255).Draw(t, "origPwm"), NoStored: true}
 	// script based (cmd) fans: a small share (each access is a process), always with a configured map -
 	// the case in which fan2go must not sweep them
-	cmdFan := rare(t, "cmdFan", 4*envInt("VERIF_CMD_SHARE", 1))
+	cmdFan := rare(t, "cmdFan", 4)
 	if cmdFan {
 		f.Kind = "cmd"
 	}
